@@ -104,6 +104,23 @@ def c18_cases(ctx):
         k += 1
         ctx.add("t%da" % k, b, kind="pairA", pair="t%db" % k, what="two fresh objects")
         ctx.add("t%db" % k, b, kind="pairB")
+    # the first call after a reset must take the same path as the first call on a fresh object: MZFlush::Finish with an
+    # output buffer that is too small, and a corrupt stream whose match reaches before the start of the output
+    early = bytes([0x4B, 0x04, 0x62, 0x00])
+    for policy in range(3):
+        for j in range(4 if ctx.tier == "quick" else 20):
+            name, s, z, p = rng.choice(base)
+            fmt = fmt_of(z)
+            hist = random_history_inflate(rng, base)
+            for (inp, f2, last) in ((s, fmt, "iscall @ %d 4" % max(1, len(p) // 2)), (s, fmt, "iscall @ %d 4" % (len(p) + 10)),
+                                    (early, 2, "iscall @ 100 4")):
+                k += 1
+                rs = "isreset 2 %d" % f2 if policy == 2 else "isreset %d" % policy
+                a = ["in %s" % hx(inp), "isnew %d" % f2] + hist + [rs, last]
+                b = ["in %s" % hx(inp), "isnew %d" % f2, last]
+                ctx.add("r%da" % k, a, kind="pairA", pair="r%db" % k,
+                        what="InflateState reset policy %s (first call Finish)" % ["MinReset", "ZeroReset", "FullReset"][policy])
+                ctx.add("r%db" % k, b, kind="pairB")
     # the documented MinReset caveat (known finding F3): after decoding a first stream, MinReset keeps the 32 KiB
     # window; a following stream with a match reaching before its own start copies bytes of the previous stream
     first = zlib.compressobj(6, zlib.DEFLATED, -15)
@@ -424,11 +441,25 @@ def check_C20(rep, tier, seed, replay):
             results[name] = rc
             if rc != 0:
                 fails.append(("assert_" + name, "compile-time assertion crate (%s) does not build: %s" % (name, out[-400:].replace("\n", " | "))))
+        # a #![no_std] staticlib with no #[global_allocator]: cannot be produced if the decompression side links liballoc
+        nd = os.path.join(core.V, "harness_c20/noalloc")
+        if not os.path.exists(os.path.join(nd, "Cargo.lock")) and os.path.exists(lock_src):
+            open(os.path.join(nd, "Cargo.lock"), "wb").write(open(lock_src, "rb").read())
+        for feats in ("", "block-boundary", "simd", "block-boundary,simd"):
+            rc, out = core.run(["cargo", "build", "--offline", "--features", feats], cwd=nd, env={"CARGO_TARGET_DIR": tdir}, timeout=900)
+            name = "noalloc_staticlib{%s}" % feats
+            results[name] = rc
+            if rc != 0:
+                errs = " | ".join(l for l in out.splitlines() if l.startswith("error"))[:400]
+                fails.append(("noalloc_" + (feats.replace(",", "_").replace("-", "_") or "none"),
+                              "a no_std staticlib without a global allocator cannot be built against miniz_oxide{%s} with default "
+                              "features off: %s" % (feats, errs)))
     rep.coverage["compiler_verdicts"] = results
     rep.coverage["evaluations"] = len(results)
     rep.coverage["distinct_nontrivial"] = len(results)
     rep.coverage["rule"] = ("kernel-evaluated scanner over every .rs file under miniz_oxide/src (regenerated into coq/gen/GenSources.v each run); "
-                            "cargo rustc -F unsafe_code for the feature sets %s; a #![no_std] crate using the decoder without allocator; "
+                            "cargo rustc -F unsafe_code for the feature sets %s; a #![no_std] crate using the decoder without allocator; a no_std "
+                            "staticlib with no global allocator linked against default-features-off miniz_oxide x {block-boundary, simd}; "
                             "Send+Sync+Clone+'static assertions on the public state types" % [n for n, _ in FEATURE_SETS])
     rep.add_samples([{"feature_set": n, "rc": results[n]} for n in list(results)[:4]])
     # correspondence: model verdict (scanner) and compiler verdict must agree
